@@ -434,6 +434,19 @@ def register(cat):
 
     op("T.setitem", "T", gen_T_setitem, run_setitem, inplace=True, weight=0.7)
 
+    def gen_T_setitem_linear(c, r):
+        # linear indices in a caller-owned array, counted from the end where negative
+        size = int(np.prod(c.obj(r).shape))
+        if size < 3:
+            return None
+        ks = c.g.sample(range(size), 2)
+        for j in range(2):
+            if c.g.random() < 0.5:
+                ks[j] -= size
+        return {"operands": [r, c.fresh(np.array(ks, dtype=int)), c.fresh(np.array([rnd(c.g), rnd(c.g)]))]}
+
+    op("T.setitem_linear", "T", gen_T_setitem_linear, run_setitem, inplace=True, weight=0.5)
+
     from . import catalog_b_ops2
 
     catalog_b_ops2.register(cat, simple, binary, with_scalar, _perm, _dims_subset, gen_ttm, run_ttv, gen_mttkrp, run_mttkrp, gen_nvecs, run_getitem, run_setitem)
